@@ -14,6 +14,7 @@ import PPV.Model.GroupSum
 import PPV.Gen.FluidData
 import PPV.Model.ToolboxRun
 import PPV.Model.NxGraphRun
+import PPV.Gen.Coupling
 
 open PPV
 
@@ -75,6 +76,10 @@ def handle (line : String) : String :=
     PPV.Model.Newton.Run.showRat (PPV.Model.Fluid.pumpPressure reg v)
   | "toolbox" :: _ => PPV.Model.Toolbox.Run.handle (line.trimAscii.toString.splitOn "::")
   | "nxgraph" :: rs :: rv :: _ => PPV.Model.NxGraph.Run.handle rs rv (line.trimAscii.toString.splitOn "::")
+  | "coupling" :: name :: args =>
+    match PPV.Gen.Coupling.run name (args.map hexToFloat).toArray with
+    | some r => floatToHex r
+    | none => "bad-coupling"
   | _ => "bad-op"
 
 partial def loop (h : IO.FS.Stream) (out : IO.FS.Stream) : IO Unit := do
